@@ -299,6 +299,40 @@ func c12Prose(c *Ctx, idx int) {
 	}
 }
 
+// c12Periodic: long strings made by repeating a short unit of characters of different widths, so
+// that the byte length is an exact multiple (2x, 3x) of the code point count although the characters
+// are not all of that width - and the same strings with one more character, where it is not.  Any
+// shortcut that infers "fixed width" from the two lengths jumps into the middle of characters.
+var c12Units = []string{"日本語abc", "😀é", "éa€é", "a€", "é𝌆", "ab𝌆é", "aé", "€", "é", "𝌆", "a", "a𝌆aé€é", "𝌆𝌆a", "€a"}
+
+var c12PeriodLens = []int{64, 255, 256, 257, 300, 512, 1000, 1024, 4096}
+
+func c12PeriodicN(c *Ctx) int { return len(c12Units) * len(c12PeriodLens) * 2 }
+
+func c12Periodic(c *Ctx, idx int) {
+	unit := []rune(c12Units[idx%len(c12Units)])
+	idx /= len(c12Units)
+	n := c12PeriodLens[idx%len(c12PeriodLens)]
+	idx /= len(c12PeriodLens)
+	var b strings.Builder
+	for i := 0; i < n; i++ {
+		b.WriteRune(unit[i%len(unit)])
+	}
+	if idx == 1 {
+		b.WriteString("z")
+		n++
+	}
+	doc := ref.NewObj()
+	doc.Set("s", b.String())
+	goDoc := ref.ToGo(doc, ref.JSONNumber)
+	for _, f := range []string{"s[::2]", "s[::3]", "s[1::5]", "s[::7]", "s[::-1]", "s[::-2]", "s[-2:-30:-5]", "s[5::100]", "s[1:40:7]", fmt.Sprintf("s[%d::-3]", n/2), fmt.Sprintf("s[%d:%d:2]", n/3, n/3+20), fmt.Sprintf("s[::%d]", n-1), fmt.Sprintf("s[::%d]", n/2), "s[3:9]", "s[-7:]", "s | [::4]", "[s][0][::6]"} {
+		m, _ := c.CheckModel("C12", f, doc, goDoc, CheckOpts{Features: map[string]string{"stream": "periodic", "unit": string(unit), "code_points": fmt.Sprint(n)}})
+		if !m.Unspec {
+			c.Nontrivial(f, string(unit), fmt.Sprint(n))
+		}
+	}
+}
+
 func init() {
 	Register(&Property{
 		ID:            "C12",
@@ -310,6 +344,7 @@ func init() {
 			{Name: "nested", N: func(c *Ctx) int { return tierN(c, 3000, 200000) }, Run: c12Nested},
 			{Name: "prose", N: func(c *Ctx) int { return tierN(c, 600, 60000) }, Run: c12Prose},
 			{Name: "long", N: c12LongN, Run: c12Long, Exhaustive: true},
+			{Name: "periodic", N: c12PeriodicN, Run: c12Periodic, Exhaustive: true},
 			{Name: "direct", N: func(c *Ctx) int { return tierN(c, 40000, 8000000) }, Run: c12Direct},
 		},
 	})
